@@ -207,6 +207,7 @@ func (m *MuxBroker) timeoutWait(id uint32, p *muxBrokerPending) {
 		select {
 		case s := <-p.ch:
 			s.Close()
+		default:
 		}
 	}
 }
